@@ -23,6 +23,12 @@ func VerifC16_PassThroughAndRecord() {
 	verifSchedule(mode, 1)
 	n := verifParam("length", 0, 5)
 	chunk := verifParam("chunk", 1, 3)
+	if mode == 0 && verifParam("full-blocks", 0, 1) == 1 {
+		// inputs around the size of the 8096-byte block, each read filling
+		// the buffer as far as it can (lazy schedule only)
+		n = bufferLength - 1 + verifParam("over", 0, 2)
+		chunk = bufferLength
+	}
 	in := verifBytes("in", n)
 	dir := verifTempDir()
 	defer verifRemoveDir(dir)
